@@ -55,7 +55,7 @@ func VerifH_http_recv_stream() {
 		truncated = true
 	}
 	r := &vfFragReader{data: wire[:cut]}
-	if cut > vfBound(9, 12) {
+	if cut > vfBound(9, 10) {
 		r.greedy = true
 		r.maxChunk = 1 + vfChoice(3)
 	}
